@@ -255,6 +255,13 @@ def expr(cx, n):
         return expr(cx, inner[0]) if inner else "CUnknown"
     if k == "IntegerLiteral" and ty:
         return "(CLit %s %s)" % (ty, zl(int(n["value"])))
+    if k == "StringLiteral":
+        v = astq.string_literal(n)
+        if v is None:
+            return "CUnknown"
+        # the address of a string literal: a name that carries the literal's text (non-printable octets as \xNN)
+        txt = "".join(ch if 32 <= ord(ch) < 127 and ch != "\\" else "\\x%02x" % (ord(ch) & 255) for ch in v)
+        return "(CVar u64 %s)" % coq_s("str:" + txt)
     if k == "CharacterLiteral" and ty:
         return "(CLit %s %s)" % (ty, zl(int(n["value"])))
     if k in ("ImplicitCastExpr", "CStyleCastExpr"):
@@ -264,6 +271,8 @@ def expr(cx, n):
         if ck in ("LValueToRValue", "NoOp", "BitCast", "FunctionToPointerDecay"):
             return expr(cx, inner[-1])
         if ck == "ArrayToPointerDecay":
+            if astq.strip(inner[-1]).get("kind") == "StringLiteral":
+                return expr(cx, astq.strip(inner[-1]))
             a = addr_of(cx, inner[-1])
             if a is not None:
                 return "(CCast u64 %s)" % a
